@@ -5,23 +5,13 @@
    per store and non-zero peer ids, steps naming non-zero peer ids, with one exception that is part of
    the statement: a RemovePeer whose store holds a peer with ANOTHER id counts 1. *)
 From Coq Require Import String.
-From PDV Require Import lib.Base gen.Gen_C08 model.C08_Steps model.C09_OpCtl proof.C08_ListFacts.
+From PDV Require Import lib.Base gen.Gen_C08 model.C08_Steps model.C09_OpCtl proof.C08_ListFacts proof.C08_StepSpec.
 Local Open Scope string_scope.
 Local Open Scope list_scope.
 Local Open Scope Z_scope.
 
 Lemma leave_lookup_is_store d : leave_lookup_key d = fst d.
 Proof. reflexivity. Qed.
-
-Definition pair_ids_nonzero (l : list (Z * Z)) : bool := forallb (fun x => negb (snd x =? 0)) l.
-
-Definition step_ids_nonzero (s : step) : bool :=
-  match s with
-  | AddPeer _ id | AddLearner _ id | AddLightPeer _ id | AddLightLearner _ id
-  | PromoteLearner _ id | DemoteFollower _ id => negb (id =? 0)
-  | ChangePeerV2Enter pl dv | ChangePeerV2Leave pl dv => pair_ids_nonzero pl && pair_ids_nonzero dv
-  | _ => true
-  end.
 
 Definition region_ids_nonzero (r : region) : bool := forallb (fun p => negb (pid p =? 0)) (peers r).
 
@@ -32,92 +22,10 @@ Definition remove_names_other_peer (r : region) (s : step) : bool :=
   | _ => false
   end.
 
-(* ---------- lookups ---------- *)
-Section Lookups.
-  Variable r : region.
-  Hypothesis Hnd : ND (peers r).
-
-  Lemma voter_some st p : get_store_voter r st = Some p -> get_store_peer r st = Some p /\ is_learner p = false.
-  Proof.
-    rewrite get_store_voter_lk by exact Hnd. rewrite get_store_peer_lk.
-    destruct (lk (peers r) st) as [q|]; [|discriminate]. destruct (is_learner q) eqn:E; [discriminate|].
-    intros H; inversion H; subst. auto.
-  Qed.
-
-  Lemma voter_none st : get_store_voter r st = None ->
-    get_store_peer r st = None \/ exists p, get_store_peer r st = Some p /\ is_learner p = true.
-  Proof.
-    rewrite get_store_voter_lk by exact Hnd. rewrite get_store_peer_lk.
-    destruct (lk (peers r) st) as [q|]; [|auto]. destruct (is_learner q) eqn:E; [|discriminate]. intros _. right. eauto.
-  Qed.
-
-  Lemma learner_some st p : get_store_learner r st = Some p -> get_store_peer r st = Some p /\ is_learner p = true.
-  Proof.
-    rewrite get_store_learner_lk by exact Hnd. rewrite get_store_peer_lk.
-    destruct (lk (peers r) st) as [q|]; [|discriminate]. destruct (is_learner q) eqn:E; [|discriminate].
-    intros H; inversion H; subst. auto.
-  Qed.
-
-  Lemma peer_voter st p : get_store_peer r st = Some p -> is_learner p = false -> get_store_voter r st = Some p.
-  Proof.
-    rewrite get_store_voter_lk by exact Hnd. rewrite get_store_peer_lk. intros -> ->. reflexivity.
-  Qed.
-
-  Lemma peer_learner st p : get_store_peer r st = Some p -> is_learner p = true -> get_store_learner r st = Some p.
-  Proof.
-    rewrite get_store_learner_lk by exact Hnd. rewrite get_store_peer_lk. intros -> ->. reflexivity.
-  Qed.
-
-  Lemma peer_not_learner st p : get_store_peer r st = Some p -> is_learner p = false -> get_store_learner r st = None.
-  Proof.
-    rewrite get_store_learner_lk by exact Hnd. rewrite get_store_peer_lk. intros -> ->. reflexivity.
-  Qed.
-End Lookups.
-
 Lemma region_pid_nonzero r st p : region_ids_nonzero r = true -> get_store_peer r st = Some p -> pid p <> 0.
 Proof.
   unfold region_ids_nonzero, get_store_peer. intros H E. apply find_some in E as [E _].
   rewrite forallb_forall in H. specialize (H p E). apply negb_true_iff, Z.eqb_neq in H. exact H.
-Qed.
-
-Lemma is_learner_role p : is_learner p = true <-> prole p = Learner.
-Proof. unfold is_learner. destruct (prole p); cbn; split; intros H; try reflexivity; discriminate. Qed.
-
-(* ---------- the scans of ChangePeerV2Enter/Leave.CheckSafety ---------- *)
-Definition is_jin (c : jcls) : bool := match c with JIn => true | _ => false end.
-Definition is_jout (c : jcls) : bool := match c with JOut => true | _ => false end.
-
-Lemma scan_pairs_inr r cls tl : forall l acc acc',
-  scan_pairs r cls tl l acc = inr acc' ->
-  (forall x, In x l -> oid (get_store_peer r (fst x)) = snd x /\
-                       (cls (orole (get_store_peer r (fst x))) = JIn \/ cls (orole (get_store_peer r (fst x))) = JOut))
-  /\ fst (fst acc') = (fst (fst acc) || existsb (fun x => is_jin (cls (orole (get_store_peer r (fst x))))) l)
-  /\ snd (fst acc') = (snd (fst acc) || existsb (fun x => is_jout (cls (orole (get_store_peer r (fst x))))) l).
-Proof.
-  induction l as [|x rest IH]; intros acc acc' H; cbn [scan_pairs] in H.
-  - inversion H; subst. cbn [existsb]. rewrite !orb_false_r. split; [intros ? []|split; reflexivity].
-  - destruct (negb (oid (get_store_peer r (fst x)) =? snd x)) eqn:Eid; [discriminate|].
-    apply negb_false_iff, Z.eqb_eq in Eid.
-    destruct (cls (orole (get_store_peer r (fst x)))) eqn:Ec; [discriminate| |].
-    + destruct acc as [[ij nj] dl]. apply IH in H as (H1 & H2 & H3). cbn [fst snd] in *.
-      split; [|split].
-      * intros y [<-|Hy]; [split; [exact Eid|left; exact Ec]|apply H1; exact Hy].
-      * rewrite H2. cbn [existsb]. rewrite Ec. cbn [is_jin]. rewrite orb_true_r. reflexivity.
-      * rewrite H3. cbn [existsb]. rewrite Ec. cbn [is_jout orb]. reflexivity.
-    + destruct acc as [[ij nj] dl]. apply IH in H as (H1 & H2 & H3). cbn [fst snd] in *.
-      split; [|split].
-      * intros y [<-|Hy]; [split; [exact Eid|right; exact Ec]|apply H1; exact Hy].
-      * rewrite H2. cbn [existsb]. rewrite Ec. cbn [is_jin orb]. reflexivity.
-      * rewrite H3. cbn [existsb]. rewrite Ec. cbn [is_jout]. rewrite orb_true_r. reflexivity.
-Qed.
-
-Lemma existsb_all {A} (f : A -> bool) l : l <> [] -> (forall x, In x l -> f x = true) -> existsb f l = true.
-Proof. destruct l as [|x r]; [congruence|]. intros _ H. cbn. rewrite (H x (or_introl eq_refl)). reflexivity. Qed.
-
-Lemma existsb_none {A} (f : A -> bool) l : (forall x, In x l -> f x = false) -> existsb f l = false.
-Proof.
-  induction l as [|x r IH]; intros H; cbn; [reflexivity|]. rewrite (H x (or_introl eq_refl)). apply IH.
-  intros y Hy. apply H. right. exact Hy.
 Qed.
 
 Lemma joint_verdict_all_in r n dl : joint_verdict r n (true, false, dl) = None -> count_joint r = Z.of_nat n.
@@ -130,20 +38,11 @@ Proof.
   unfold joint_verdict. cbn [andb]. destruct (count_joint r =? 0) eqn:E; [intros _; apply Z.eqb_eq; exact E|discriminate].
 Qed.
 
-Lemma count_joint_zero r : count_joint r = 0 -> is_in_joint r = false.
-Proof.
-  unfold count_joint, is_in_joint. induction (peers r) as [|p l IH]; cbn [filter existsb]; [reflexivity|].
-  destruct (in_joint p); cbn [length orb]; [lia|exact IH].
-Qed.
-
 (* ---------- the lemma ---------- *)
 Section Count.
   Variable r : region.
   Hypothesis Hnd : ND (peers r).
   Hypothesis Hids : region_ids_nonzero r = true.
-
-  Lemma pairs_nonzero l x : pair_ids_nonzero l = true -> In x l -> snd x <> 0.
-  Proof. unfold pair_ids_nonzero. rewrite forallb_forall. intros H Hin. specialize (H x Hin). apply negb_true_iff, Z.eqb_neq in H. exact H. Qed.
 
   (* ChangePeerV2Enter: counted and safe -> finished *)
   Lemma enter_counted_finished pl dv :
@@ -156,7 +55,7 @@ Section Count.
     apply andb_true_iff in Ec as [Ea Eb]. rewrite forallb_forall in Ea, Eb.
     destruct (scan_pairs r enter_promote_cls false pl (false, false, false)) as [e|acc1] eqn:S1; [discriminate|].
     destruct (scan_pairs r enter_demote_cls false dv acc1) as [e|acc2] eqn:S2; [discriminate|].
-    apply scan_pairs_inr in S1 as (P1 & P2 & P3). apply scan_pairs_inr in S2 as (D1 & D2 & D3). cbn [fst snd] in *.
+    apply scan_pairs_inr in S1 as (P1 & P2 & P3 & _). apply scan_pairs_inr in S2 as (D1 & D2 & D3 & _). cbn [fst snd] in *.
     (* every promoted entry is an incoming voter with the id *)
     assert (Apl : forall x, In x pl -> exists p, get_store_voter r (fst x) = Some p /\ get_store_peer r (fst x) = Some p /\
                                                    pid p = snd x /\ prole p = Incoming).
@@ -194,7 +93,7 @@ Section Count.
     apply andb_true_iff in Ec as [Ea Eb]. rewrite forallb_forall in Ea, Eb.
     destruct (scan_pairs r leave_promote_cls false pl (false, false, false)) as [e|acc1] eqn:S1; [discriminate|].
     destruct (scan_pairs r leave_demote_cls true dv acc1) as [e|acc2] eqn:S2; [discriminate|].
-    apply scan_pairs_inr in S1 as (P1 & P2 & P3). apply scan_pairs_inr in S2 as (D1 & D2 & D3). cbn [fst snd] in *.
+    apply scan_pairs_inr in S1 as (P1 & P2 & P3 & _). apply scan_pairs_inr in S2 as (D1 & D2 & D3 & _). cbn [fst snd] in *.
     assert (Apl : forall x, In x pl -> exists p, get_store_voter r (fst x) = Some p /\ get_store_peer r (fst x) = Some p /\
                                                    pid p = snd x /\ prole p = Voter).
     { intros x Hx. specialize (Ea x Hx). cbn zeta in Ea. apply andb_true_iff in Ea as [E1 E2]. apply Z.eqb_eq in E1.
